@@ -17,10 +17,10 @@ def run(chk):
         'operator without operand ends the whole expression; LawFlatten (tree read in order = consumed input) is '
         'model-checked on every table and input',
         'mechanism layer: the shunting-yard machine of operator_table.py is transcribed in PegVM (OTLoop: two stacks, '
-        'commit marker, two checkpoints, static flags); MC_C02 checks LawVMRefines (the machine computes the Pratt-style '
-        'meaning), LawVMFlags (a failing table that claims it cannot partially succeed leaves the position alone) and '
-        'LawVMNoBadState (no pop from an empty stack, no spinning) on every table and input of the family; OracleVM '
-        'checks the same on the random tables',
+        'commit marker, two checkpoints, static flags); MC_C02 checks LawVMRefines on every table of one or two rows and '
+        'every input: the machine computes the Pratt-style meaning, a failing table that claims it cannot partially '
+        'succeed leaves the position alone, and it never pops an empty stack or spins; OracleVM checks the same on '
+        'the random tables (3-4 rows)',
     ]
     cases = pegcheck.collect(chk, 'MC_C02', 'MC_C02_' + chk.tier, timeout_s=3000)
     chk.notes['tlc_enumerated_grammars'] = len(cases)
